@@ -612,6 +612,7 @@ nni_http_conn_reset(nng_http *conn)
 	conn->uri = NULL;
 	nni_http_set_version(conn, NNG_HTTP_VERSION_1_1);
 	nni_http_set_status(conn, 0, NULL);
+	conn->iserr = false;
 }
 
 void
